@@ -88,6 +88,11 @@ func (m leafPred) Matches(l *ct.LeafEntry) bool {
 	return m.f(int64(ts-tsBase), typ == 1)
 }
 
+// bothMatcher satisfies scanner.Matcher (through MatchAll) and scanner.LeafMatcher.
+type bothMatcher struct{ scanner.MatchAll }
+
+func (bothMatcher) Matches(*ct.LeafEntry) bool { return true }
+
 // Profile is drawn per run.
 type Profile struct {
 	Batch, Par    int
@@ -466,7 +471,12 @@ func (w *World) drawMatcher() {
 		{`^PreIssuer`, func(tm *tmpl) bool { return false }}, // a leaf never names the precert-signing certificate
 	}
 	ms := &w.match
-	switch t.Intn(9) {
+	switch t.Intn(10) {
+	case 9:
+		// a matcher that answers to both of the scanner's matcher interfaces, selecting everything under either:
+		// selected once is still delivered once
+		*ms = matchSpec{Kind: "all", Desc: "bothMatcher (MatchAll + Matches(leaf)=true)", m: bothMatcher{}, sel: func(*tmpl, int64) bool { return true }}
+		w.s.Probe("matcher.both-interfaces")
 	case 0:
 		*ms = matchSpec{Kind: "all", Desc: "MatchAll", m: &scanner.MatchAll{}, sel: func(*tmpl, int64) bool { return true }}
 	case 1:
